@@ -6,21 +6,26 @@ package utils
 
 //@ property C07 C08 C03
 //@ func Assert
+//@   params err msg
 //@   panics_iff err != nil
 //@   ensures_panic same_error: implies(len(msg) <= 0, panicval() == err)
 //@   ensures_panic wrapped_by_errorf: implies(len(msg) > 0, errorfmade(panicval()))
 //@ func AssertIf
+//@   params exp msg args
 //@   panics_iff exp
 //@   ensures_panic built_by_errorf: errorfmade(panicval())
 //@ func AssertLength
+//@   params n err
 //@   panics_iff err != nil
 //@   ensures result == n
 //@   ensures_panic same_error: panicval() == err
 //@ func AssertLong
+//@   params n err
 //@   panics_iff err != nil
 //@   ensures result == n
 //@   ensures_panic same_error: panicval() == err
 //@ func AssertBytes
+//@   params b err
 //@   panics_iff err != nil
 //@   ensures sameslice(result, b)
 //@   ensures_panic same_error: panicval() == err
@@ -29,6 +34,7 @@ package utils
 // C14: conversion helpers return exactly the content of every supported input
 //@ property C14 C04 C08 C09 C10 C16
 //@ func NewByteReader
+//@   params r
 //@   requires r != nil
 //@   ensures already: implies(impl(r, ByteReader), result == r)
 //@   ensures wrapped: implies(!impl(r, ByteReader), is(result, *byteReader) && as(result, *byteReader) != nil && as(result, *byteReader).Reader == r)
@@ -39,6 +45,7 @@ package utils
 
 // byte-wise reading: one byte consumed and returned, or an error and nothing consumed
 //@ func (*byteReader).ReadByte
+//@   params r
 //@   requires r != nil && r.Reader != nil && rwf(r.Reader)
 //@   may_panic true
 //@   modifies ghost rpos
@@ -52,6 +59,7 @@ package utils
 //@ spec func cvString(m any) bool = !cvBytes(m) && !is(m, [][]byte) && is(m, string)
 //@ spec func cvReader(m any) bool = !cvBytes(m) && !is(m, [][]byte) && !is(m, string) && impl(m, io.Reader)
 //@ func ToReader
+//@   params message
 //@   loop 0 invariant len(readers) == rangeindex + 1 && -1 <= rangeindex && rangeindex < len(as(message, [][]byte))
 //@   ensures bytes: implies(cvBytes(message), result1 == nil && result0 != nil && !rbad(result0) && seqeq(rcontent(result0), content(as(message, []byte))))
 //@   ensures vec: implies(cvVec(message), result1 == nil && result0 != nil)
@@ -59,6 +67,7 @@ package utils
 //@   ensures reader: implies(cvReader(message), result1 == nil && result0 == message)
 //@   ensures unsupported: implies(!cvBytes(message) && !cvVec(message) && !cvString(message) && !cvReader(message), result1 != nil)
 //@ func MustToReader
+//@   params message
 //@   event
 //@   panics_iff !cvBytes(message) && !cvVec(message) && !cvString(message) && !cvReader(message)
 //@   ensures nonnil: implies(!cvReader(message), result != nil)
@@ -69,6 +78,8 @@ package utils
 // CountOf: the sum itself needs a recursive specification, which this engine does not have;
 // only the absence of run-time faults is claimed (machine arithmetic, exact).
 //@ func CountOf
+//@   params buffs
+//@   results n
 //@   mode bv
 //@   loop 0 invariant -1 <= rangeindex && rangeindex < len(buffs)
 //@   ensures_assumed range: 0 <= result && result <= 1<<47
@@ -77,11 +88,14 @@ package utils
 // sound only for sources that never reuse the chunk: StealBytes requires such a source.
 //@ spec func stable(w io.WriterTo) bool = is(w, *bytes.Reader) || is(w, *strings.Reader)
 //@ func (*ByteStealer).Write
+//@   params s p
+//@   results n err
 //@   requires s != nil
 //@   modifies ByteStealer.Data, elems(uint8)
 //@   ensures all: n == len(p) && err == nil
 //@   ensures content: seqcat(content(s.Data), old(content(s.Data)), old(content(p)))
 //@ func StealBytes
+//@   params reader
 //@   requires reader != nil && stable(reader) && rwf(reader)
 //@   may_panic true
 //@   modifies ghost rpos, elems(uint8), ByteStealer.Data
@@ -94,6 +108,7 @@ package utils
 //@ spec func tbStable(m any) bool = !tbBytes(m) && !is(m, [][]byte) && !is(m, string) && !is(m, *bytes.Buffer) && (is(m, *bytes.Reader) || is(m, *strings.Reader))
 //@ spec func tbOther(m any) bool = !tbBytes(m) && !is(m, [][]byte) && !is(m, string) && !is(m, *bytes.Buffer) && !is(m, *bytes.Reader) && !is(m, *strings.Reader)
 //@ func ToBytes
+//@   params message
 //@   loop 0 invariant -1 <= rangeindex && rangeindex < len(as(message, [][]byte))
 //@   requires implies(tbStable(message) || (tbOther(message) && impl(message, io.Reader)), rwf(message))
 //@   may_panic true
@@ -107,6 +122,7 @@ package utils
 //@   ensures unsupported: implies(tbOther(message) && !impl(message, io.WriterTo) && !impl(message, io.Reader), result1 != nil)
 
 //@ func MustToBytes
+//@   params message
 //@   event
 //@   requires implies(tbStable(message) || (tbOther(message) && impl(message, io.Reader)), rwf(message))
 //@   may_panic true
@@ -130,6 +146,7 @@ package utils
 //@ spec func exInv(e *exactReader) bool = e != nil && e.r != nil && rwf(e.r) && lsrc(e) == e.r && ebase(e) >= 0 && 0 <= rpos(e) && rpos(e) <= rend(e) && rpos(e.r) == ebase(e) + rpos(e) && rend(e) == ite(llim(e) <= 0, 0, min(llim(e), exAvail0(e))) && rbad(e) == (llim(e) > 0 && exAvail0(e) < llim(e)) && e.n == ite(llim(e) <= 0, llim(e), llim(e) - rpos(e))
 //@ spec func exData(e *exactReader) bool = forall(i, 0, rend(e), rdata(e)[i] == rdata(e.r)[ebase(e) + i])
 //@ func ExactReader
+//@   params r n
 //@   requires r != nil && rwf(r)
 //@   ensures shape: is(result, *exactReader) && fresh(as(result, *exactReader)) && as(result, *exactReader) != nil && as(result, *exactReader).r == r && as(result, *exactReader).n == n
 //@   ensures_assumed stream_definition: lsrc(result) == r && lsrc_t(result) == typeof(r) && llim(result) == n && ebase(result) == rpos(r) && rpos(result) == 0 && rend(result) == ite(n <= 0, 0, min(n, ravail(r))) && rbad(result) == (n > 0 && ravail(r) < n)
@@ -141,6 +158,8 @@ package utils
 //@ field exactReader.r immutable ExactReader
 //@ field exactReader.n owned_by (*exactReader).Read, ExactReader
 //@ func (*exactReader).Read
+//@   params e p
+//@   results n err
 //@   requires exInv(e) && exData(e)
 //@   may_panic true
 //@   modifies exactReader.n, ghost rpos, slice p
